@@ -212,26 +212,33 @@ theorem append_char_fault_safe {p : Pool} (hi : Inv p) {o : Nat} {s : Obj} (ho :
 /-- under *any* fault schedule every admissible operation returns or throws (`unicode_error`,
     `bad_alloc`) — it never faults or hangs — and leaves a pool satisfying `Inv`, i.e. every stream
     still usable and destructible, nothing leaked.  A throwing operation leaves what every stream shows
-    unchanged, except that a signed-number `operator<<` may already have appended its '-'. -/
+    unchanged (strong guarantee; for the signed-number `operator<<` this holds since its repair). -/
 theorem step_fault_safe {p : Pool} (hi : Inv p) (op : Op) (hwf : op.wf) (hok : ByteLog.ok (abs p) op.toSpec = true) :
     ∃ p', Inv p' ∧
       ((op.run R p = .ok () p' ∧ abs p' = ByteLog.step (abs p) op.toSpec) ∨
        (op.run R p = .throw .unicodeError p' ∧ abs p' = abs p) ∨
-       (op.run R p = .throw .badAlloc p' ∧ p.failAt ≠ none ∧
-          (abs p' = abs p ∨ ∃ o ds b, op = .appendNum o true ds ∧ abs p o = some b ∧ abs p' = (abs p).set o (some (b ++ [45]))))) := by
+       (op.run R p = .throw .badAlloc p' ∧ p.failAt ≠ none ∧ abs p' = abs p)) := by
   rcases step_sound hi op hwf hok with ⟨p', h1, h2, h3, _⟩ | ⟨p', h1, h2, h3, _⟩ | ⟨p', h1, h2, h3, _, h5⟩
   · exact ⟨p', h2, Or.inl ⟨h1, h3⟩⟩
   · exact ⟨p', h2, Or.inr (Or.inl ⟨h1, h3⟩)⟩
   · exact ⟨p', h2, Or.inr (Or.inr ⟨h1, h3, h5⟩)⟩
 
-/-- witness for the exception noted above: `ss << -5` on a stream of 255 bytes whose growth fails has
-    appended the '-' (size 256) when `bad_alloc` arrives -/
-theorem signed_number_partial_append_witness :
+/-- the signed-number overloads as first read (`append_char('-')`, then `append(digits)`): `ss << -5` on a
+    stream of 255 bytes whose growth fails had appended the '-' (size 256) when `bad_alloc` arrived … -/
+theorem pinned_signed_number_partial_append :
+    (match runOps R [.ctor 0, .appendChar 0 65 255] Pool.init with
+     | .ok _ p => (match appendNumAsFound 0 true [53] { p with allocs := 0, failAt := some 1 } with
+        | .throw .badAlloc p' => (abs p' 0).map List.length
+        | _ => none)
+     | _ => none) = some 256 := by decide +kernel
+
+/-- … the repaired overloads leave the 255 bytes -/
+theorem repaired_signed_number_unchanged :
     (match runOps R [.ctor 0, .appendChar 0 65 255] Pool.init with
      | .ok _ p => (match appendNum 0 true [53] { p with allocs := 0, failAt := some 1 } with
         | .throw .badAlloc p' => (abs p' 0).map List.length
         | _ => none)
-     | _ => none) = some 256 := by decide +kernel
+     | _ => none) = some 255 := by decide +kernel
 
 /-! ### the revision first read (defect #14): what the unrepaired move operations do -/
 
